@@ -36,7 +36,12 @@ class CallMixin:
             if mem is not None:
                 return self.class_member(mem, h.cls, name, base, node)
             if default is not None:
-                return default
+                return NONE if default.k == 'none' else default
+            if getattr(h, 'symbolic_model', False) and not name.startswith('__'):
+                # an object given by a (partial) model may carry state the model does not mention: unknown value
+                v = SV('opq', self.sym('unknown_field_' + name, OPQ), 'unknown')
+                h.f[name] = v
+                return v
             raise PyRaise('AttributeError', name)
         if k == 'cls':
             return self.cls_attr(base.t, name, node, default)
@@ -430,6 +435,10 @@ class CallMixin:
             if tn in self.src.classes:
                 return z3.BoolVal(self.src.is_subclass(c, tn))
             return z3.BoolVal(False)
+        if k == 'opq' and v.x == 'unknown':
+            if tn in self.src.classes:
+                return z3.BoolVal(False)       # state the model does not mention is plain data, not one of the library's objects
+            return self.ufunc('isinstance_' + tn.replace('.', '_'), OPQ, BOOL)(v.t)
         if k == 'opq':
             tag = v.x or 'any'
             decl = self.opq_models().get(tag, {}).get('__isinstance__')
@@ -558,9 +567,9 @@ class CallMixin:
     def call_function(self, f, args, kw, node=None):
         fn = f.node
         stubs = (self.cur_contract or {}).get('stubs', {})
-        if f.name in stubs and f.bound is not None:
+        if f.name in stubs:
             st = stubs[f.name]
-            ck = ('stubcache', f.name, f.bound.t if f.bound.k in ('obj', 'cls') else None)
+            ck = ('stubcache', f.name, f.bound.t if (f.bound is not None and f.bound.k in ('obj', 'cls')) else None)
             if st.get('pure') and ck in self.st.ghost:
                 return self.st.ghost[ck]       # a pure abstract callee: same receiver state, same result
             if st.get('raises') and self.st.oracle.choose(2) == 1:
@@ -580,7 +589,7 @@ class CallMixin:
         allargs = ([f.bound] if f.bound is not None else []) + list(args)
         key = self.contract_key(f)
         c = self.contracts.get(key)
-        if c is not None and not c.get('inline'):
+        if c is not None and not c.get('inline') and not c.get('inline_in_callers'):
             return self.modular_call(key, c, f, allargs, kw, node)
         if len(self.st.frames) > 60:
             raise Unsupported(f'inlining depth exceeded at {key} (recursive function needs a contract)')
@@ -701,8 +710,14 @@ class CallMixin:
                 res = self.fresh_of(c.get('returns', 'none'), key.replace('.', '_'))
                 defining = []
             cenv['result'] = res
+            import re as _re
             for nm, r in ens:
                 if defining and r == defining[0]:
+                    continue
+                m_ = _re.match(r'^\s*self\.(\w+) is (?!not\b)(?!None\b)([\w\.]+)\s*$', r)
+                if m_ and 'self' in cenv and cenv['self'].k == 'obj':
+                    # identity postcondition on a field: the callee stored exactly that object
+                    self.st.heap[cenv['self'].t].f[m_.group(1)] = self.ev_spec(m_.group(2), cenv)
                     continue
                 self.assume(self.truth(self.ev_spec(r, cenv)))
             if c.get('inv_preserved') and 'self' in cenv and cenv['self'].k == 'obj':
@@ -844,6 +859,7 @@ class CallMixin:
         oid = self.st.alloc(HObj(model.get('cls', cls)))
         o = SV('obj', oid)
         h = self.st.heap[oid]
+        h.symbolic_model = True
         for fld, fs in model.get('fields', {}).items():
             h.f[fld] = self.fresh_of(fs, f'{hint}_{fld}')
         for inv in model.get('inv', []):
